@@ -50,13 +50,14 @@ type callScript struct {
 	CancelAfter int  // client cancels after receiving this many messages (-1 never)
 	Deadline    bool // the handler blocks on ctx.Done(); the client uses a short deadline
 	OutMD       [2]string
+	WithCause   bool // the client's context is cancelled / times out with a caller-supplied cause
 	InMD        bool // the client's context carries incoming metadata (the client is itself a handler forwarding a call)
 	ViaStream   bool // unary only: the client opens the unary method as a (non-streaming) stream, as generic proxies do
 }
 
 func (s callScript) String() string {
-	return fmt.Sprintf("%s pre=%v serverMsgs=%q mid=%v code=%d msg=%q plain=%v failAfter=%d clientMsgs=%q cancelAfter=%d deadline=%v outMD=%v inMD=%v viaStream=%v",
-		s.Shape, s.PreOps, s.ServerMsgs, s.MidOps, s.Code, s.Msg, s.PlainErr, s.FailAfter, s.ClientMsgs, s.CancelAfter, s.Deadline, s.OutMD, s.InMD, s.ViaStream)
+	return fmt.Sprintf("%s pre=%v serverMsgs=%q mid=%v code=%d msg=%q plain=%v failAfter=%d clientMsgs=%q cancelAfter=%d deadline=%v outMD=%v inMD=%v viaStream=%v withCause=%v",
+		s.Shape, s.PreOps, s.ServerMsgs, s.MidOps, s.Code, s.Msg, s.PlainErr, s.FailAfter, s.ClientMsgs, s.CancelAfter, s.Deadline, s.OutMD, s.InMD, s.ViaStream, s.WithCause)
 }
 
 // ---- the one scripted server serving both transports -----------------------------------------------------------
@@ -287,9 +288,17 @@ func runClient(cc grpc.ClientConnInterface, srv *scriptedServer, sc callScript) 
 		ctx = metadata.AppendToOutgoingContext(ctx, "x-client", sc.OutMD[0], "x-client", sc.OutMD[1])
 	}
 	var cancel context.CancelFunc
-	if sc.Deadline {
+	switch {
+	case sc.Deadline && sc.WithCause:
+		// a caller may attach its own reason to a deadline or a cancel: the call still ends as deadline / cancelled
+		ctx, cancel = context.WithTimeoutCause(ctx, 40*time.Millisecond, errors.New("the operator's patience ran out"))
+	case sc.Deadline:
 		ctx, cancel = context.WithTimeout(ctx, 40*time.Millisecond)
-	} else {
+	case sc.WithCause:
+		var cc context.CancelCauseFunc
+		ctx, cc = context.WithCancelCause(ctx)
+		cancel = func() { cc(errors.New("the operator pressed stop")) }
+	default:
 		ctx, cancel = context.WithCancel(ctx)
 	}
 	defer cancel()
@@ -460,6 +469,7 @@ func genScript(t *rapid.T) callScript {
 		sc.OutMD = [2]string{"c1", "c2"}
 	}
 	sc.InMD = rapid.IntRange(0, 2).Draw(t, "inMD") == 0
+	sc.WithCause = rapid.IntRange(0, 2).Draw(t, "withCause") == 0
 	switch sc.Shape {
 	case "unary":
 		sc.ClientMsgs = []string{rapid.SampledFrom([]string{"hello", ""}).Draw(t, "req")}
